@@ -222,6 +222,9 @@ def _run(chk, tier, model_ok):
                 stats["modules_outside_moduleWF (dynamic-size fixed type)"] += 1
             if head.startswith("ok "):
                 stats["ir_moduleConstMatch_checked"] += 1
+                # structures for which SizeCovers is a theorem (C01_sizeCovers_of_closed_folds), not a hypothesis
+                stats["structs_total"] += max(nstructs, 0)
+                stats["structs_sizeCovers_discharged (structClosedFolds)"] += int(parts.get("cov", 0))
             if not head.startswith("ok ") or (parts.get("wf") != "1" and not wf_explained) \
                     or parts.get("csm") != "1" \
                     or int(parts.get("synth", -1)) != nstructs or int(parts.get("fuel", -1)) != nstructs:
